@@ -46,9 +46,13 @@ def fam_loop():
         if allowscript:
             r.append(AA(["type"], ["script"], noattrs=True))
             r.append(call("AllowElementsMatching", pat="^sty"))
+            r.append(AA(["class"], ["xmp"]))            # a raw-text element allowed only with attributes
+            r.append(call("AllowUnsafe", b=False))      # saying "no" explicitly must stay "no"
         if unskip: r.append(call("AllowElementsContent", names=["script", "style", "object"]))
         # elements that are allowed through a pattern AND listed in the skip-content set
         if spaces != comments: r.append(call("SkipElementsContent", names=["custom-x", "x-y", "b"]))
+        # an attribute rule with an empty attribute list on skip-content elements changes nothing
+        if spaces and unskip: r.append(AA([], ["object", "title", "blink"]))
         recipes.append(r)
     # AllowUnsafe(true): script/style may pass and their bodies are written unescaped (conformance only: the
     # listed properties all exclude AllowUnsafe)
@@ -63,6 +67,8 @@ def fam_loop():
         "img": [(), (("src", "/i"),)],               # void, never bare
         "custom-x": [(), (("class", "k"),)],         # pattern, bare OK
         "x-y": [(), (("class", "k"),)],              # pattern, no attribute rules: never emitted
+        "x-caf\u00e9": [()],                           # pattern-allowed, never bare, non-ASCII name
+        "xmp": [(), (("class", "k"),)],              # raw-text element (allowed with attributes in some recipes)
         "d\u0130v": [(), (("title", "t"),)],           # look-alike of an allowed name (U+0130 lower-cases to ASCII i)
         "blink": [()],                               # unknown
         "object": [()],                              # unknown, skip set
@@ -75,10 +81,10 @@ def fam_loop():
     for n, avs in names.items():
         for a in avs:
             toks.append(tok("start", n, a))
-            if n not in ("title", "style", "frame"):
+            if n not in ("title", "style", "frame", "x-caf\u00e9"):
                 toks.append(tok("self", n, a))
         toks.append(tok("end", n))
-    toks += [tok("text", d="txt"), tok("comment", d="cmt"), tok("doctype", d="html")]
+    toks += [tok("text", d="t&<x"), tok("comment", d="cmt"), tok("comment", d="[CDATA[x]]"), tok("doctype", d="html")]
     return dict(name="loop", recipes=recipes, tokens=toks)
 
 def fam_loopq():
@@ -112,7 +118,9 @@ def fam_link():
     recipes.append([call("NewPolicy"), AA(["href", "rel", "target"], ["a", "area", "link"]),
                     call("RequireNoReferrerOnLinks", b=True), call("AddTargetBlankToFullyQualifiedLinks", b=True),
                     call("RequireParseableURLs", b=False)])
-    alpha = (av("href", ["http://e.com/x", "/rel", "javascript:x"]) +
+    recipes.append([call("ZeroValue"), call("RequireNoFollowOnLinks", b=True), call("AddTargetBlankToFullyQualifiedLinks", b=True),
+                    AA(["href", "rel", "target"], ["a", "area", "link"]), call("AllowURLSchemes", schemes=["http", "https"])])
+    alpha = (av("href", ["http://e.com/x", "/rel", "javascript:x", "http://e.com/%zz"]) +
              av("rel", ["nofollow", "NOFOLLOW", "xnofollowx", "tag noopener", "notnoopenerx noreferrer"]) +
              av("target", ["_blank", "_top"]))
     return dict(name="link", recipes=recipes, tokens=[], attrs={"a": alpha, "area": alpha, "link": alpha})
@@ -121,7 +129,8 @@ URLS = ["http://example.org/a?b=1&c=2", "https://e.com", "/rel/path", "#frag", "
         " javascript:alert(1)", "java\tscript:alert(1)", "data:image/png;base64,iVBORw0KGgo=", "data:text/html,<script>alert(1)</script>",
         "mailto:a@b.c", "//host/p", "http://a b/", "%zz", "", "ftp://f/x", "tel:+1", "http:\\\\e.com\\p", "HTTP://EXAMPLE.ORG/Up",
         "http://u:p@example.org/", "\x01javascript:alert(1)", "x:y", "?q=1", "http://example.com/\u00e9",
-        " http://example.org/lead", "https://e.com/trail\n", "data:image/png;base64,iVBO\nRw0KGgo="]
+        " http://example.org/lead", "https://e.com/trail\n", "data:image/png;base64,iVBO\nRw0KGgo=",
+        "https:opaque.example/p.gif", "httpx://e.com/", "a b", "x\ty", "/caf\u00e9/menu", "http://e.com/%zz"]
 
 def fam_url():
     """C03: every listed URL position x the URL catalogue x scheme allowlists / custom checks / relative / rewriter."""
@@ -144,6 +153,7 @@ def fam_url():
         base + [call("AllowStandardURLs")],
         base + [call("AllowURLSchemeWithCustomPolicy", scheme="http", fid=hx), call("AllowURLSchemes", schemes=["http"])],
         base + [call("AllowURLSchemesMatching", pat="^x")],
+        base + [call("AllowURLSchemes", schemes=["http"]), call("AllowURLSchemeWithCustomPolicy", scheme="HTTP", fid=hx)],
         base + [call("AllowURLSchemes", schemes=["data", "http"]), call("AllowRelativeURLs", b=True), call("AllowRelativeURLs", b=False)],
     ]
     attrs = {el: av(k, URLS) + av("class", ["k"]) for el, k in els.items()}
@@ -171,8 +181,11 @@ def fam_forced():
     # crossorigin is forced but not itself allowed; URLs are checked and relative ones rejected (a policy in the class of C20)
     recipes.append([call("NewPolicy"), AA(["src", "class"], ["img", "audio", "span", "link"]), call("AllowURLSchemes", schemes=["https"]),
                     call("RequireCrossOriginAnonymous", b=True)])
+    recipes.append(base + [call("RequireNoFollowOnLinks", b=True), call("RequireCrossOriginAnonymous", b=True)])
+    recipes.append(base + [call("RequireSandboxOnIFrame", vals=["allow-popups-to-escape-sandbox"])])
     alpha = (av("crossorigin", ["anonymous", "use-credentials", ""]) +
-             av("sandbox", ["allow-forms", "allow-forms allow-forms", "allow-scripts bogus\tallow-forms", "", "ALLOW-FORMS"]) +
+             av("sandbox", ["allow-forms", "allow-forms allow-forms", "allow-scripts bogus\tallow-forms", "", "ALLOW-FORMS",
+                            "allow-popups allow-popups-to-escape-sandbox"]) +
              av("src", ["/x"]) + av("class", ["k"]) + av("onclick", ["x"]))
     return dict(name="forced", recipes=recipes, tokens=[], attrs={e: alpha for e in els})
 
@@ -186,9 +199,10 @@ def fam_allow():
             AA(["lang"], ["custom-x"]), call("AllowElements", names=["B"]), AA(["href"], ["a"]),
             AA(["style"], ["span"])]
     recipes = [base, base + [call("AllowDataAttributes")],
-               base + [AA(["class"], ["span"]), AA([], ["a"], noattrs=True)],
+               base + [AA(["class"], ["span"]), AA([], ["a"], noattrs=True),
+                       call("AllowStyles", props=["color"], scope="els", els=["b"])],   # style rules for ANOTHER element only
                [call("NewPolicy"), AA(["class", "title"], pat=".*", match=lower), call("AllowElementsMatching", pat="^b")]]
-    alpha = (av("class", ["abc", "123", "a1", " 123", "abc\n", "\tabc "]) + av("id", ["x"]) + av("title", ["tt", "zz"]) + av("lang", ["en"]) +
+    alpha = (av("class", ["abc", "123", "a1", " 123", "abc\n", "\tabc "]) + av("id", ["x"]) + av("title", ["tt", "zz", "bx-x", "custom-y"]) + av("lang", ["en"]) +
              av("onclick", ["x"]) + av("data-x", ["1"]) + av("data-a;b", ["1"]) + av("data-xmlq", ["1"]) + av("data-adata-;x", ["1"]) + av("data-data-xmlq", ["1"]) + av("x\"y", ["v"]) +
              av("href", ["/x"]) + av("style", ["color: red"]))
     # custom-x is also named explicitly (shadows the patterns); custom-b-x is reached through both patterns only
@@ -200,7 +214,7 @@ STYLES = ["color: red", "color: red; background: url(javascript:alert(1))", "COL
           "width: expression(alert(1))", "color: \\72 ed", "-webkit-transition: none", "color: red !important",
           "background-image: url('http://e.com/a;b.png')", "/* c */ color: blue", "color", "color: r\\65 d",
           "font-family: \\110000 x", "color: re\\20 d", "font-size: 12px; color: blue; width: 1px", "-moz--webkit-color: red", "",
-          "color: r\\65D", "color: b\\6Cue", "width: 1px", "COLOR: \\52 ED"]
+          "color: r\\65D", "color: b\\6Cue", "width: 1px", "COLOR: \\52 ED", "width: red", "color: #fff"]
 
 def fam_style():
     """C10: style rules at the three scopes with the four matcher kinds."""
@@ -216,6 +230,10 @@ def fam_style():
                 AS(["color"], "pat", pat="^sp", enum="e:green")],
         base + [AS(["nosuchprop", "color"], "els", els=["span"])],
         base,
+        # default handlers for several properties on an element pattern
+        base + [AS(["color", "width", "text-align"], "pat", pat="^custom-")],
+        # the same property allowed globally (enumeration) and on an element (pattern)
+        base + [AS(["color"], "glob", enum="e:red|blue"), AS(["color"], "els", els=["span"], re="r:^#[0-9a-f]{3}$")],
         # two overlapping element patterns carrying different properties
         [call("NewPolicy"), AA(["style", "class"], pat="^custom-"), AA(["style"], pat="-x$"),
          AS(["color"], "pat", pat="^custom-", enum="e:red|blue"), AS(["width"], "pat", pat="-x$", handler=noparen)],
@@ -245,7 +263,7 @@ def fam_conf():
             tok("start", "custom-x"), tok("start", "custom-x", (("title", "t"), ("class", "k"))), tok("end", "custom-x"),
             tok("start", "q", (("cite", "http://e.com/x"),)), tok("end", "q"),
             tok("start", "blink"), tok("self", "b"), tok("start", "b", (("data-x", "1"),)),
-            tok("text", d="txt"), tok("comment", d="cmt")]
+            tok("text", d="t&<x"), tok("text", d="a\rb"), tok("comment", d="cmt")]
     return dict(name="conf", recipes=recipes, tokens=toks)
 
 def fam_ugc():
@@ -256,6 +274,8 @@ def fam_ugc():
             tok("start", "a", (("href", "http://e.com/x"),)), tok("start", "a", (("href", js),)), tok("start", "a", (("href", "/r"), ("onclick", "x"), ("style", "color:red"))),
             tok("end", "a"), tok("start", "img", (("src", "/i.png"), ("alt", "x"))), tok("start", "img", (("src", "x"), ("onerror", "alert(1)"))),
             tok("start", "img", (("src", "data:image/png;base64,iVBORw0KGgo="),)),
+            tok("start", "l\u0130", (("value", "3"),)), tok("start", "q", (("cite", "/caf\u00e9/menu"),)),
+            tok("start", "a", (("href", "httpx://e.com/"),)),
             tok("start", "td", (("colspan", "2"),)), tok("end", "td"), tok("start", "table"), tok("end", "table"),
             tok("start", "del", (("cite", js),)), tok("start", "q", (("cite", "http://e.com/"),)), tok("end", "q"),
             tok("start", "script"), tok("end", "script"), tok("start", "style"), tok("end", "style"), tok("self", "script"),
@@ -273,13 +293,14 @@ def fam_policy():
     hx = "f:verifharness/h.URLPolExampleHost"
     calls = [
         call("AllowElements", names=["B", "p"]), call("AllowElements", names=["b"]), call("AllowElements", names=["span", "A"]),
-        AA(["class"], ["span"], match="re:^[a-z]+$"), AA(["CLASS"], [], match="re:^[0-9]+$"), AA(["Title"], pat="^custom-", noattrs=True),
+        AA(["class"], ["span"], match="re:^[a-z]+$"), AA(["CLASS"], [], match="re:^[0-9]+$"), AA(["class"], [], match="re:^[a-z]+$"), AA(["Title"], pat="^custom-", noattrs=True),
         AA([], ["A"], noattrs=True), AA(["href"], ["a"]),
         AS(["color"], "glob"), AS(["COLOR"], "els", els=["Span"], enum="e:red|blue"),
         call("AllowElementsMatching", pat="^x-"),
         call("AllowURLSchemes", schemes=["HTTP"]), call("AllowURLSchemes", schemes=["mailto", "http"]),
         call("AllowURLSchemeWithCustomPolicy", scheme="Http", fid=hx), call("AllowURLSchemesMatching", pat="^(ftp|tel)$"),
         call("RequireNoFollowOnLinks", b=True), call("RequireNoFollowOnLinks", b=False),
+        call("RequireNoReferrerOnLinks", b=True), call("RequireNoReferrerOnLinks", b=False),
         call("AllowRelativeURLs", b=True), call("AllowRelativeURLs", b=False), call("RequireParseableURLs", b=False),
         call("AddTargetBlankToFullyQualifiedLinks", b=True),
         call("SkipElementsContent", names=["B", "div"]), call("AllowElementsContent", names=["SCRIPT", "b", "object"]),
@@ -312,6 +333,7 @@ def fam_io():
         dict(blank=True, toks=[T(" \n\t ")]),
         dict(blank=True, toks=[]),
         dict(blank=False, toks=[tok("start", "a"), tok("start", "img"), tok("end", "a"), tok("self", "b"), tok("start", "b"), tok("end", "b"), T("\u00e9\u4e2d")]),
+        dict(blank=False, toks=[tok("start", "b"), T("x"), tok("end", "b"), T("y" * 5000), tok("start", "b"), tok("end", "b")]),
     ]
     return dict(name="io", recipes=recipes, docs=docs, tokens=[])
 
